@@ -405,11 +405,15 @@ func (g *Gen) callStatic(st *BState, in ssa.Instruction, callee *ssa.Function, a
 		}
 	}
 	if con == nil && !g.eng.isTarget(callee) {
+		// a callee outside the repository without an (assumed) contract: nothing can be proved about the
+		// call; it is reported as an undischarged obligation and the results are left unconstrained
+		a, pos := g.anchor(in.Pos())
+		what := name
 		if variant != "" {
-			g.fatalf("external callee %s [%s] has no contract", name, variant)
-		} else {
-			g.fatalf("external callee %s has no contract", name)
+			what += " [" + variant + "]"
 		}
+		g.addObl(st, "P", a+":callee-without-contract:"+mangle(what), pos, g.allProps(), "false", "call of "+what+": no contract is available for this external function (out of reach)")
+		g.unconstrainedResults(st, callee.Signature, v)
 		return
 	}
 	if con != nil && con.Trusted {
@@ -454,7 +458,7 @@ func (g *Gen) callStatic(st *BState, in ssa.Instruction, callee *ssa.Function, a
 	g.calls = append(g.calls, rec)
 	a, pos := g.anchor(in.Pos())
 	calleeInv := g.eng.participates(callee) && g.fn.Pkg != nil && callee.Pkg != nil && g.fn.Pkg.Pkg == callee.Pkg.Pkg
-	if calleeInv {
+	if calleeInv || (con != nil && con.NeedsInv) {
 		g.checkPkgInvs(st, "P", a+":pkginv:", pos, guard)
 	}
 	if con != nil {
@@ -486,13 +490,26 @@ func (g *Gen) callStatic(st *BState, in ssa.Instruction, callee *ssa.Function, a
 		}
 		g.bindResults(scratch, callee, rts, rtys)
 		nf := len(g.fatal)
+		g.touched = map[string]bool{}
 		for _, e := range con.Ensures {
 			g.trBool(e.Expr, scratch, e)
 		}
 		g.fatal = g.fatal[:nf]
 	}
+	touched := g.touched
+	g.touched = nil
 	// frame: havoc written regions
 	ws, targets := g.calleeWrites(callee, con, env)
+	if con != nil && con.Trusted && con.HasMod {
+		// an assumed contract: of the regions the body may write at objects it allocates, only those its
+		// ensures clauses describe are given new versions (the others keep their values: nothing is known
+		// about fresh objects there, and nothing allocated before the call is written)
+		for k := range ws {
+			if _, declared := targets[k]; !declared && k != "alloc" && !touched[k] {
+				delete(ws, k)
+			}
+		}
+	}
 	post := st.heap
 	alPre := g.heapGet(pre, g.allocRegion())
 	wkeys := sortedKeys(ws)
@@ -797,8 +814,8 @@ func (g *Gen) invokeExternal(st *BState, in ssa.Instruction, c *ssa.CallCommon, 
 	key := "iface " + typeKey(c.Value.Type()) + "." + c.Method.Name()
 	pure := g.eng.pureIfaceMethods[key] || (typeKey(c.Value.Type()) == "error" && c.Method.Name() == "Error")
 	if !pure {
-		g.fatalf("invoke of %s not modelled (declare it in a spec file)", key)
-		return
+		a, pos := g.anchor(in.Pos())
+		g.addObl(st, "P", a+":method-without-contract:"+mangle(key), pos, g.allProps(), "false", "invoke of "+key+": no contract is available for this external method (out of reach)")
 	}
 	sig := c.Signature()
 	var rterms []string
@@ -936,6 +953,12 @@ func wrapArgIndex(format string) int {
 
 func (g *Gen) doReturn(st *BState, in *ssa.Return) {
 	g.retCount++
+	if *flagCanary {
+		// vacuity canary: `false` must NOT be provable at a reachable return
+		_, pos := g.anchor(in.Pos())
+		o := g.addObl(st, "V", fmt.Sprintf("return%d:reachable", g.retCount), pos, g.allProps(), "false", "canary: assumptions on the path to this return are consistent")
+		o.MustBeSat = true
+	}
 	{
 		_, pos := g.anchor(in.Pos())
 		if pos == "" {
@@ -1092,4 +1115,28 @@ func (g *Gen) notFreshOf(r *Region, post Heap) string {
 		return fmt.Sprintf("(not (select %s r)) (not (= (rtype r) %d))", alPost, r.StructTag)
 	}
 	return fmt.Sprintf("(not (select %s r))", alPost)
+}
+
+func (g *Gen) unconstrainedResults(st *BState, sig *types.Signature, v ssa.Value) {
+	var rterms []string
+	for i := 0; i < sig.Results().Len(); i++ {
+		t := sig.Results().At(i).Type()
+		rn := g.fresh(fmt.Sprintf("r_ext_%d", i), sortOf(t))
+		if a := g.typeAssume(rn, t); a != "" {
+			g.assume(st, a)
+		}
+		if fs := g.allocatedFact(st.heap, rn, t); len(fs) > 0 {
+			g.assume(st, "(and "+strings.Join(fs, " ")+")")
+		}
+		rterms = append(rterms, rn)
+	}
+	if v != nil {
+		switch len(rterms) {
+		case 0:
+		case 1:
+			g.vals[v] = rterms[0]
+		default:
+			g.tuples[v] = rterms
+		}
+	}
 }
